@@ -59,6 +59,9 @@ def filler(n: int, tag: str) -> bytes:
     return bytes(out[:n])
 
 
+DEBUG = [False]  # the debug_enabled argument of write_packets (the wire bytes must not depend on it)
+
+
 class Counter:
     def __init__(self) -> None:
         self.evals = 0
@@ -104,7 +107,7 @@ def check_plain(res: Result, c: Counter, packets: list[tuple[int, bytes]], h: An
     c.evals += 1
     key = "plain:" + ",".join(f"{t}/{len(p)}" for t, p in packets)
     try:
-        h.write_packets(packets, False)
+        h.write_packets(packets, DEBUG[0])
     except Exception as e:  # noqa: BLE001
         res.add(key, f"write_packets raised {type(e).__name__}: {e}", {"packets": [(t, len(p)) for t, p in packets]})
         return
@@ -132,7 +135,7 @@ def check_noise(res: Result, c: Counter, packets: list[tuple[int, bytes]], h: An
     n0 = len(dev.received)
     nonce0 = dev.r.rx.n  # type: ignore[union-attr]
     try:
-        h.write_packets(packets, False)
+        h.write_packets(packets, DEBUG[0])
     except Exception as e:  # noqa: BLE001
         res.add(key, f"write_packets raised {type(e).__name__}: {e}", {"packets": [(t, len(p)) for t, p in packets]})
         return False
@@ -189,6 +192,24 @@ def run(tier: str, seed: int) -> Result:
                 check_plain(res, c, [a, b], h, tr)
                 for d in small:
                     check_plain(res, c, [a, b, d], h, tr)
+        # the same length / batch sweeps with debug logging requested (what is written must not depend on it)
+        DEBUG[0] = True
+        hd, trd = plain_helper()
+        for ln in lens:
+            pl = filler(ln, "p")
+            for t in (1, 128):
+                check_plain(res, c, [(t, pl)], hd, trd)
+        big = [(1, filler(1500, "b1")), (128, filler(700, "b2")), (16384, filler(3000, "b3"))]
+        for a in small + big:
+            for b in small + big:
+                check_plain(res, c, [a, b], hd, trd)
+        hdn, trdn, devd = noise_helper("d")
+        for ln in list(range(0, 301, 7)) + [2000, 2030, 2048, 2049, 4096, 16384, 65515]:
+            check_noise(res, c, [(1, filler(ln, "n"))], hdn, trdn, devd)
+        for a in small + big:
+            for b in small + big:
+                check_noise(res, c, [a, b], hdn, trdn, devd)
+        DEBUG[0] = False
         # ---------------- (a) noise helper ----------------------------------------------------------
         hn, trn, dev = noise_helper("a")
         step = 1 if not quick else 3
@@ -221,10 +242,12 @@ def run(tier: str, seed: int) -> Result:
         n2i = env.proto_name_to_id()
         pb = env.pb()
         sent_types = 0
-        for noise in (False, True):
+        for noise, debug in ((False, False), (True, False), (False, True), (True, True)):
             w = ConnWorld(noise=noise)
             try:
                 w.connect_fully()
+                if debug:
+                    w.conn.set_debug(True)
                 sock = w.sock
                 assert sock is not None
                 base_writes = len(sock.sent)
@@ -242,7 +265,7 @@ def run(tier: str, seed: int) -> Result:
                                 continue
                         batch = [msg] if idx % 3 else [msg, klass()]
                         c.evals += 1
-                        key = f"conn:{'noise' if noise else 'plain'}:{klass.__name__}:{variant}"
+                        key = f"conn:{'noise' if noise else 'plain'}{':debug' if debug else ''}:{klass.__name__}:{variant}"
                         try:
                             w.conn.send_messages(tuple(batch))
                         except Exception as e:  # noqa: BLE001
